@@ -275,6 +275,14 @@ def run_check(a, prop, tier, seed, spec, scratch, t_start):
     if a.src != "/repo":
         a.no_evidence = True
     log("built in %.1fs" % build_s)
+    degraded = []
+    if os.path.exists(os.path.join(scratch, "degraded.txt")):
+        degraded = open(os.path.join(scratch, "degraded.txt")).read().split()
+        errs = open(os.path.join(scratch, "degraded.err")).read()[-1500:]
+        own = {"C18": "routes", "C05": "rotation", "C20": "sendfaults"}.get(prop)
+        if own in degraded:
+            die2("the part of this check that calls the tree's internals directly (harness/%s.go) does not compile against this tree (not a violation):\n%s" % (own, errs))
+        log("note: optional harness file(s) %s left out - they do not compile against this tree; this check does not need them%s" % (degraded, " (C15 runs without its purge / re-establishment variants)" if prop == "C15" and "inpkg_c15" in degraded else ""))
     if simprep_report.get("unhandled"):
         log("rewriter left native:", simprep_report["unhandled"])
     known = load_known()
